@@ -106,9 +106,9 @@ const (
 
 // SessionKeys is every session key the library uses plus the application's own.
 var SessionKeys = []string{
-	"uid", "halfauth", "last_action", "twofactor", "twofactor_auth_token", "twofactor_authed",
+	"uid", "halfauth", "last_action", "twofactor", "twofactor_auth_token", "twofactor_authed", "twofactor_authed_pid",
 	"oauth2_state", "oauth2_params", "totp_secret", "totp_pending", "sms_number", "sms_secret",
-	"sms_last", "sms_pending", "flash_success", "flash_error", "app_theme", "app_lang", "app_cart",
+	"sms_last", "sms_pending", "sms_secret_number", "flash_success", "flash_error", "app_theme", "app_lang", "app_cart",
 }
 
 // Call is one traced backend call of a request.
